@@ -24,7 +24,7 @@ pub(crate) struct DespawnAccessTracker
     reactor_handle: Option<ReactorHandle>,
 
     /// Reaction information cached for when the reaction system actually runs.
-    prepared: Vec<(SystemCommand, Entity, ReactorHandle)>,
+    prepared: Vec<(u64, Entity, ReactorHandle)>,
 }
 
 impl DespawnAccessTracker
@@ -33,16 +33,16 @@ impl DespawnAccessTracker
     pub(crate) fn verif_state(&self) -> (usize, bool) { (self.prepared.len(), self.currently_reacting) }
 
     /// Caches metadata for an entity reaction.
-    pub(crate) fn prepare(&mut self, reactor: SystemCommand, source: Entity, handle: ReactorHandle)
+    pub(crate) fn prepare(&mut self, ticket: u64, source: Entity, handle: ReactorHandle)
     {
-        self.prepared.push((reactor, source, handle));
+        self.prepared.push((ticket, source, handle));
     }
 
     /// Sets metadata for the current entity reaction.
-    pub(crate) fn start(&mut self, reactor: SystemCommand)
+    pub(crate) fn start(&mut self, ticket: u64)
     {
-        let Some(pos) = self.prepared.iter().position(|(s, _, _)| *s == reactor) else {
-            tracing::error!("prepared despawn entity reaction is missing {:?}", reactor);
+        let Some(pos) = self.prepared.iter().position(|(t, _, _)| *t == ticket) else {
+            tracing::error!("prepared despawn entity reaction is missing for ticket {:?}", ticket);
             debug_assert!(false);
             return;
         };
